@@ -14,7 +14,11 @@ def gen_case(rng, i, tier):
     ops += ["info 0 %d" % k, "total 0 %d" % k]       # one past the end: refused
     total = sum(int(l.split(" ")[4]) for l in links)
     ln = rng.choice([4096, 4096, 64, 1000])
-    ops += ["read 0 %d" % ln] * (total // min(ln, 128) + 8 * k + 6)
+    if rng.random() < 0.3:
+        # the same walk through ov_read (16 bit): whole frames of the link the call names, position moved by as many
+        ops += ["readi 0 %d 0 2 1" % (2 * ln)] * (total // min(ln // 6 + 1, 128) + 8 * k + 6)
+    else:
+        ops += ["read 0 %d" % ln] * (total // min(ln, 128) + 8 * k + 6)
     ops += ["tell 0", "clear 0"]
     return ops
 
@@ -66,8 +70,29 @@ def oracle(d):
                 return "info: link %d reports %s, encoded %d ch %d Hz" % (i, a, chans[i], rates[i])
         elif t[0] == "serial":
             i = int(t[2])
-            if int(a.split(" ")[1]) != 1000 + seeds[i] % 100000:
+            if int(a.split(" ")[1]) != V.serial_of(seeds[i]):
                 return "serial: link %d reports %s" % (i, a)
+        elif t[0] == "readi":
+            rc = f["rc"]
+            if rc.startswith("OV_"):
+                return "hole: linear ov_read of an intact chain returned " + rc
+            nb = int(rc)
+            if nb == 0:
+                eof = True
+                continue
+            if eof:
+                return "after-eof: bytes after end of file: " + a
+            link = int(f["link"])
+            if not 0 <= link < k or nb % (2 * chans[link]) != 0:
+                return "frames: ov_read returned %d bytes for link %d (%s channels)" % (nb, link, chans[link] if 0 <= link < k else "?")
+            n = nb // (2 * chans[link])
+            if int(f["t0"]) != pos or int(f["t1"]) != pos + n:
+                return "positions: %s: %d frames of link %d, expected to move from %d to %d" % (a, n, link, pos, pos + n)
+            if link < lastlink or not (bounds[link] <= pos and pos + n <= bounds[link + 1]):
+                return "order: samples [%d,%d) attributed to link %d" % (pos, pos + n, link)
+            lastlink = link
+            pos += n
+            got += n
         elif t[0] == "read":
             rc = f["rc"]
             if rc.startswith("OV_"):
